@@ -147,12 +147,9 @@ theorem coupled_who {s : Srv} {b : Bot} (hw : SrvWF s) (hc : Coupled s b) (c : S
   split
   · rename_i sc hch
     rw [Srv.chan_eq] at hch
-    by_cases hb : s.botIn sc = true
-    · simp only [hb, ↓reduceIte]
-      obtain ⟨hf, hcs, _⟩ := who_reply (b := b) ⟨hw, hc.nick⟩ hch
-      apply coupled_of_frame hc hf
-      rw [hcs]; exact hc.chans (lower c)
-    · simp only [hb, Bool.false_eq_true, ↓reduceIte, recvAll_nil]; exact hc
+    obtain ⟨hf, hcs, _⟩ := who_reply (b := b) ⟨hw, hc.nick⟩ hch
+    apply coupled_of_frame hc hf
+    rw [hcs]; exact hc.chans (lower c)
   · simp only [recvAll_nil]; exact hc
 
 end C10
